@@ -88,16 +88,17 @@ FindScope(env, nm, i) == IF i = 0 THEN 0
 Bind(sc, nm, v) == [n \in (DOMAIN sc) \cup {nm} |-> IF n = nm THEN v ELSE sc[n]]
 
 \* declare nm in the innermost scope
-Declare(s, nm, v) == IF nm = "_" \/ nm = "" THEN s
-                     ELSE [s EXCEPT !.env[Len(s.env)] = Bind(s.env[Len(s.env)], nm, v)]
+Declare(s, nm, v, ty) == IF nm = "_" \/ nm = "" THEN s
+                         ELSE [s EXCEPT !.env[Len(s.env)] = Bind(s.env[Len(s.env)], nm, v),
+                                        !.tenv[Len(s.env)] = Bind(s.tenv[Len(s.env)], nm, ty)]
 \* assign to the innermost binding of nm
 Update(s, nm, v) == LET i == FindScope(s.env, nm, Len(s.env))
                     IN IF nm = "_" THEN s
                        ELSE IF i = 0 THEN Stuck(s)
                        ELSE [s EXCEPT !.env[i] = Bind(s.env[i], nm, v)]
 
-PushScope(s) == [s EXCEPT !.env = Append(s.env, <<>>)]
-PopScope(s)  == [s EXCEPT !.env = SubSeq(s.env, 1, Len(s.env) - 1)]
+PushScope(s) == [s EXCEPT !.env = Append(s.env, <<>>), !.tenv = Append(s.tenv, <<>>)]
+PopScope(s)  == [s EXCEPT !.env = SubSeq(s.env, 1, Len(s.env) - 1), !.tenv = SubSeq(s.tenv, 1, Len(s.tenv) - 1)]
 
 SetGlobal(s, nm, v) == [s EXCEPT !.env[1] = Bind(s.env[1], nm, v)]
 \* builtins.md Errors: err / errmsg protocol
@@ -278,7 +279,8 @@ ForNext(s) ==
 \* the range operands vs of for statement x have been evaluated: enter the loop
 ForInit(s, x, vs) ==
   LET nm == IF x.nm = "" THEN "_" ELSE x.nm
-      Start(s2, zero, rs) == ForNext([Declare(s2, nm, zero) EXCEPT !.k = Append(PopK(s2), [f |-> "forB", x |-> x, rs |-> rs])])
+      lty == CASE x.kd = "num" -> T_num [] x.kd = "arr" -> Tail(x.xs[1].ty) [] OTHER -> T_str
+      Start(s2, zero, rs) == ForNext([Declare(s2, nm, zero, lty) EXCEPT !.k = Append(PopK(s2), [f |-> "forB", x |-> x, rs |-> rs])])
   IN CASE x.kd = "num" ->
             LET a == IF Len(vs) >= 2 THEN vs[1] ELSE I(0)
                 b == IF Len(vs) >= 2 THEN vs[2] ELSE vs[1]
@@ -494,7 +496,7 @@ ApplyBuiltin(s, f, args) ==
                      THEN [End(s, "exit") EXCEPT !.xc = args[1].m] ELSE Unspec(s)
     [] f = "panic" -> Panic(s, "user")
     [] f \in {"abs", "floor", "ceil", "round"} /\ ~Small(args[1]) -> Unspec(s)
-    [] f \in {"min", "max"} /\ ~Cmpable(args[1], args[2]) -> Unspec(s)
+    [] f \in {"min", "max"} /\ (~Cmpable(args[1], args[2]) \/ args[1].s = "nan" \/ args[2].s = "nan") -> Unspec(s)
     [] f = "abs" -> RetPop(s, NumAbs(args[1]))
     [] f = "floor" -> IF IsNeg(args[1]) /\ IsZero(NumFloor(args[1])) THEN Unspec(s) ELSE RetPop(s, NumFloor(args[1]))
     [] f = "ceil" -> IF IsNeg(args[1]) /\ IsZero(NumCeil(args[1])) THEN Unspec(s) ELSE RetPop(s, NumCeil(args[1]))
@@ -526,6 +528,8 @@ ApplyBuiltin(s, f, args) ==
          ELSE LET pass == IF Len(args) = 1 THEN args[1].v.b ELSE SameVal(args[1], args[2], s.heap)
                   s1 == [s EXCEPT !.tt = s.tt + 1, !.tf = s.tf + (IF pass THEN 0 ELSE 1)]
               IN IF ~pass /\ TheCase.failFast THEN End(s1, "testfail") ELSE RetPop(s1, VNone)
+    \* graphics and other built-ins without a rule here are opaque: outcome not specified by this module
+    [] f \in Builtins -> Unspec(s)
     [] OTHER -> Stuck(s)
 
 \* call of user function fd with evaluated arguments args: fresh scope on top of the globals
@@ -536,8 +540,12 @@ CallUser(s, fd, args) ==
       sc0 == [n \in {fd.ps[i].nm : i \in DOMAIN fd.ps} \ {"_"} |->
                 args[CHOOSE i \in DOMAIN fd.ps : fd.ps[i].nm = n]]
       sc == IF Len(fd.vp) = 0 \/ fd.vp[1].nm = "_" THEN sc0 ELSE Bind(sc0, fd.vp[1].nm, VArr(NewAddr(s0)))
-  IN Block([s1 EXCEPT !.env = <<s.env[1], sc>>,
-                      !.k = Append(s0.k, [f |-> "callU", sv |-> SubSeq(s.env, 2, Len(s.env))])], fd.ss)
+      tsc0 == [n \in {fd.ps[i].nm : i \in DOMAIN fd.ps} \ {"_"} |->
+                 fd.ps[CHOOSE i \in DOMAIN fd.ps : fd.ps[i].nm = n].ty]
+      tsc == IF Len(fd.vp) = 0 \/ fd.vp[1].nm = "_" THEN tsc0 ELSE Bind(tsc0, fd.vp[1].nm, TArr(fd.vp[1].ty))
+  IN Block([s1 EXCEPT !.env = <<s.env[1], sc>>, !.tenv = <<s.tenv[1], tsc>>,
+                      !.k = Append(s0.k, [f |-> "callU", sv |-> SubSeq(s.env, 2, Len(s.env)),
+                                                         tv |-> SubSeq(s.tenv, 2, Len(s.tenv))])], fd.ss)
 
 ApplyCall(s, f, args) ==
   IF IsUserFunc(f) THEN CallUser(s, FuncByName(f), args) ELSE ApplyBuiltin(s, f, args)
@@ -568,10 +576,10 @@ Enter(s, x) ==
     [] x.k = "dot"  -> EvalPush(s, x.x, [f |-> "dot", key |-> x.key])
     [] x.k = "assert" -> EvalPush(s, x.x, [f |-> "assert", ty |-> x.ty])
     [] x.k = "grp"  -> Eval(s, x.x)
-    [] x.k = "decl" -> IF x.ty[1] = "arr" THEN Ret(Declare(Alloc(s, OArr(<<>>)), x.nm, VArr(NewAddr(s))), VNone)
-                       ELSE IF x.ty[1] = "map" THEN Ret(Declare(Alloc(s, OMap(<<>>, <<>>)), x.nm, VMap(NewAddr(s))), VNone)
-                       ELSE Ret(Declare(s, x.nm, ZeroOf(x.ty)), VNone)
-    [] x.k = "infer" -> EvalPush(s, x.x, [f |-> "infer", nm |-> x.nm])
+    [] x.k = "decl" -> IF x.ty[1] = "arr" THEN Ret(Declare(Alloc(s, OArr(<<>>)), x.nm, VArr(NewAddr(s)), x.ty), VNone)
+                       ELSE IF x.ty[1] = "map" THEN Ret(Declare(Alloc(s, OMap(<<>>, <<>>)), x.nm, VMap(NewAddr(s)), x.ty), VNone)
+                       ELSE Ret(Declare(s, x.nm, ZeroOf(x.ty), x.ty), VNone)
+    [] x.k = "infer" -> EvalPush(s, x.x, [f |-> "infer", nm |-> x.nm, ty |-> x.x.ty])
     [] x.k = "asg"  -> EvalPush(s, x.x, [f |-> "asg", tg |-> x.tg])
     [] x.k = "ret"  -> IF Len(x.xs) = 0 THEN [s EXCEPT !.ctl = [m |-> "ret", v |-> VNone]]
                        ELSE EvalPush(s, x.xs[1], [f |-> "retK"])
@@ -587,7 +595,7 @@ Continue(s, v) ==
      \* the top-level code (or a handler) has completed
      (IF s.ph = "main" /\ Len(TheProg.hs) > 0 /\ s.tf = 0 THEN [End(s, "done") EXCEPT !.status = "idle", !.ph = "events"]
       ELSE IF s.ph = "main" THEN End(s, "done")
-      ELSE [s EXCEPT !.status = "idle", !.env = <<s.env[1]>>])
+      ELSE [s EXCEPT !.status = "idle", !.env = <<s.env[1]>>, !.tenv = <<s.tenv[1]>>])
   ELSE
   LET fr == Top(s) IN
   CASE fr.f = "wrap" -> RetPop(s, VAny(fr.ty, v))
@@ -615,7 +623,7 @@ Continue(s, v) ==
     [] fr.f = "slc2" -> ApplySlice(s, fr.v, fr.vs, <<v>>)
     [] fr.f = "dot"  -> MapGet(s, v, fr.key)
     [] fr.f = "assert" -> IF v.dy = fr.ty THEN RetPop(s, v.v) ELSE Panic(s, "anyconv")
-    [] fr.f = "infer" -> RetPop(Declare(s, fr.nm, v), VNone)
+    [] fr.f = "infer" -> RetPop(Declare(s, fr.nm, v, fr.ty), VNone)
     [] fr.f = "asg"  -> CASE fr.tg.k = "var" -> RetPop(Update(s, fr.tg.nm, v), VNone)
                           [] fr.tg.k = "idx" -> EvalRepl(s, fr.tg.x, [f |-> "asgI1", v |-> v, i |-> fr.tg.i])
                           [] fr.tg.k = "dot" -> EvalRepl(s, fr.tg.x, [f |-> "asgD", v |-> v, key |-> fr.tg.key])
@@ -647,7 +655,7 @@ Continue(s, v) ==
                         IN IF Len(vs) < Len(fr.x.xs) THEN EvalRepl(s, fr.x.xs[Len(vs) + 1], [fr EXCEPT !.vs = vs])
                            ELSE ForInit(s, fr.x, vs)
     [] fr.f = "forB" -> ForNext(s)
-    [] fr.f = "callU" -> RetPop([s EXCEPT !.env = <<s.env[1]>> \o fr.sv], VNone)
+    [] fr.f = "callU" -> RetPop([s EXCEPT !.env = <<s.env[1]>> \o fr.sv, !.tenv = <<s.tenv[1]>> \o fr.tv], VNone)
     [] OTHER -> Stuck(s)
 
 \* break / return unwind one frame
@@ -659,7 +667,7 @@ Unwind(s) ==
   IN CASE fr.f = "seq"  -> [s EXCEPT !.k = PopK(s)]
        [] fr.f = "blk"  -> [PopScope(s) EXCEPT !.k = PopK(s)]
        [] fr.f \in {"whB", "forB"} -> IF brk THEN RetPop(PopScope(s), VNone) ELSE [PopScope(s) EXCEPT !.k = PopK(s)]
-       [] fr.f = "callU" -> IF brk THEN Stuck(s) ELSE RetPop([s EXCEPT !.env = <<s.env[1]>> \o fr.sv], s.ctl.v)
+       [] fr.f = "callU" -> IF brk THEN Stuck(s) ELSE RetPop([s EXCEPT !.env = <<s.env[1]>> \o fr.sv, !.tenv = <<s.tenv[1]>> \o fr.tv], s.ctl.v)
        [] OTHER -> Stuck(s)
 
 StepFn(s) ==
@@ -682,7 +690,9 @@ DeliverFn(s) ==
      ELSE LET h == HandlerFor(e.ev)
               sc == [n \in {h.ps[i].nm : i \in DOMAIN h.ps} \ {"_"} |->
                        e.args[CHOOSE i \in DOMAIN h.ps : h.ps[i].nm = n]]
-          IN Block([s1 EXCEPT !.status = "run", !.env = <<s.env[1], sc>>, !.k = <<>>], h.ss)
+              tsc == [n \in {h.ps[i].nm : i \in DOMAIN h.ps} \ {"_"} |->
+                        h.ps[CHOOSE i \in DOMAIN h.ps : h.ps[i].nm = n].ty]
+          IN Block([s1 EXCEPT !.status = "run", !.env = <<s.env[1], sc>>, !.tenv = <<s.tenv[1], tsc>>, !.k = <<>>], h.ss)
 
 ---------------------------------------------------------------------------
 
@@ -691,6 +701,7 @@ Pi == 3 * 2^50        \* placeholder: pi is never printed by the families
 InitState == [status |-> "run", ph |-> "main",
               ctl |-> [m |-> "v", v |-> VNone],
               k |-> <<>>, env |-> << [n \in {"err", "errmsg"} |-> IF n = "err" THEN VBool(FALSE) ELSE VStr(<<>>)] >>,
+              tenv |-> << [n \in {"err", "errmsg"} |-> IF n = "err" THEN T_bool ELSE T_str] >>,
               heap |-> <<>>, out |-> <<>>, stop |-> FALSE, inq |-> <<>>, evi |-> 0, evb |-> <<>>,
               tt |-> 0, tf |-> 0, xc |-> 0, rn |-> 0]
 
@@ -741,6 +752,9 @@ AnyConcrete == /\ \A i \in DOMAIN st.env : \A n \in DOMAIN st.env[i] :
                /\ \A a \in DOMAIN st.heap : \A i \in DOMAIN st.heap[a].el :
                      st.heap[a].el[i].t # "none" /\ NoNestedAny(st.heap[a].el[i], st.heap)
 
+\* preservation: every variable holds a value of the static type it was declared with
+TypeSound == \A i \in DOMAIN st.env : \A n \in DOMAIN st.env[i] : Inhabits(st.env[i][n], st.tenv[i][n], st.heap)
+
 \* effects only grow
 OutGrows == [][\/ Len(st'.out) >= Len(st.out) /\ SubSeq(st'.out, 1, Len(st.out)) = st.out]_vars
 
@@ -775,12 +789,15 @@ CaseJson(s) ==
    events |-> [i \in 1..s.evi |-> [name |-> TheCase.events[i].ev, args |-> TheCase.events[i].args]],
    failFast |-> TheCase.failFast, noTestSummary |-> TheCase.noSummary,
    stopped |-> s.stop,
+   \* soundOnly: the documentation leaves the rest of this behaviour open; only "never goes wrong"
+   \* (and the effects so far being a prefix) can be demanded of the implementation
+   soundOnly |-> s.status = "unspec",
    expect |-> [effects |-> SubSeq(s.out, 1, MainEnd(s)),
                result |-> IF s.evi > 0 THEN <<"ok">> ELSE ResultOf(s),
                events |-> EventExpect(s)]]
 
 \* always TRUE; used as a state CONSTRAINT (exhaustive runs) or INVARIANT (simulation)
-Emit == (Terminal /\ st.status # "unspec" /\ st.status # "stuck") => PrintT(ToJson(CaseJson(st)))
+Emit == (Terminal /\ st.status # "stuck") => PrintT(ToJson(CaseJson(st)))
 
 \* a case with defaults
 MkCase(fam, class, prog) == [fam |-> fam, class |-> class, prog |-> prog, inputs |-> <<>>, events |-> <<>>,
